@@ -1,0 +1,10 @@
+//go:build verif
+
+// Verification hook for property C10 (build tag `verif` only): add-only accessor, no behaviour change.
+package model
+
+// VerifInitAuthenticationPolicies exposes initAuthenticationPolicies (sort by creation time +
+// addPeerAuthentication) to the C10 harness.
+func VerifInitAuthenticationPolicies(env *Environment) *AuthenticationPolicies {
+	return initAuthenticationPolicies(env)
+}
